@@ -193,7 +193,18 @@ def run_portfolio(c):
         steps.append({'res': res, 'snap': pf_snap(pf),
                       'pub': [[a, num(v['quantity']), num(v['market_value']), num(v['unrealised_pnl']),
                                num(v['realised_pnl']), num(v['total_pnl'])] for a, v in d.items()]})
-    return {'snap0': snap0, 'steps': steps, 'hist': [event_snap(e) for e in pf.history]}
+    hist = [event_snap(e) for e in pf.history]
+    # Position.update_current_price has an optional timestamp: a mark given without one must still be the latest price
+    probe = []
+    for a, pos in list(pf.pos_handler.positions.items()):
+        newp = float(pos.current_price) * 1.25 + 0.5
+        try:
+            pos.update_current_price(newp)
+            d = pf.portfolio_to_dict()
+            probe.append([a, num(newp), num(pos.current_price), num(pos.net_quantity), num(d[a]['market_value']), num(pf.total_market_value)])
+        except Exception as e:
+            probe.append([a] + errname(e))
+    return {'snap0': snap0, 'steps': steps, 'hist': hist, 'probe': probe}
 
 
 def handler(c):
